@@ -306,5 +306,5 @@ func scan(s, format string, a ...interface{}) bool {
 }
 
 func TestC02(t *testing.T) {
-	drv.Main(t, drv.Driver{ID: "C02", Gen: gen02, Run: run02, CaseTimeout: 3 * time.Minute})
+	drv.Main(t, drv.Driver{ID: "C02", Gen: gen02, Run: run02, CaseTimeout: 15 * time.Minute})
 }
